@@ -221,6 +221,19 @@ def observe_function(modname, fname, arg, clusters_to_list):
         return [len(str(me.trace())) > 0, len(me.graph().source) > 0, len(me.graph(max_depth=1).source) > 0]
     ok, v = guarded(render)        # the stored call tree as text and as a graph (reads the stored metadata of the sub-calls)
     obs["trace_graph"] = [ok, v]
+
+    def invocation_entries():
+        # the entries of the recorded sub-calls, asked for through the references the caller's memento carries (bound or external)
+        me = fn.memento(arg)
+        if me is None:
+            return None
+        out = []
+        for inv in me.invocation_metadata.invocations or []:
+            got = inv.fn_reference.memento_fn.memento(*inv.args, **inv.kwargs)
+            out.append([inv.fn_reference.qualified_name, got is not None])
+        return out
+    ok, v = guarded(invocation_entries)
+    obs["invocation_entries"] = [ok, v]
     obs["list_functions"] = {}
     for c in clusters_to_list:
         ok, v = guarded(lambda: sorted((ref_tuple(r) for r in m.list_memoized_functions(c)), key=json.dumps))
